@@ -28,7 +28,8 @@ CONSTANTS
   GenBad,       \* also generate steps that break a construction rule (C26)
   SampleK,      \* 0: take every candidate step; k > 0: RandomSubset(k, candidates) per state
   Focus,        \* step families to generate: subset of FocusAll
-  EmitOneIn     \* emit (print) one in EmitOneIn of the complete behaviours, chosen at random; 1 = all
+  EmitOneIn,    \* emit (print) one in EmitOneIn of the complete behaviours, chosen at random; 1 = all
+  EmitSel       \* "all", or "fork": only behaviours that re-use a sub-pipeline (dup) and end with one open pipeline
 
 VARIABLES phase, inp, prog, stack, prev, astack, hist, ahist,
           dstack,   \* per open sub-pipeline: which input columns its value depends on (reference analysis, C10)
@@ -47,6 +48,7 @@ ApplyI(stk, st, dev, I) ==
   LET n == Len(stk) top == stk[n] IN
   CASE st[1] = "table"          -> Append(stk, I[st[2]])
     [] st[1] = "dup"            -> Append(stk, top)
+    [] st[1] = "swap"           -> Append(Append(SubSeq(stk, 1, n - 2), top), stk[n - 1])
     [] st[1] = "extend"         -> SetTop(stk, Extend(top, st[2], dev))
     [] st[1] = "wextend"        -> SetTop(stk, WExtend(top, st[2], st[3], st[4], st[5], dev))
     [] st[1] = "project"        -> SetTop(stk, Project(top, st[2], st[3], dev))
@@ -65,6 +67,7 @@ WellFormed(st, stk) ==
   LET n == Len(stk) cols == stk[n].cols IN
   CASE st[1] = "table"          -> st[2] \in TabNames
     [] st[1] = "dup"            -> TRUE
+    [] st[1] = "swap"           -> n >= 2
     [] st[1] = "extend"         -> ExtendOK(st[2], cols)
     [] st[1] = "wextend"        -> WExtendOK(st[2], st[3], st[4], st[5], cols)
     [] st[1] = "project"        -> ProjectOK(st[2], st[3], cols)
@@ -123,6 +126,7 @@ DepApply(dstk, st) ==
   LET n == Len(dstk) top == dstk[n] IN
   CASE st[1] = "table" -> Append(dstk, DepTable(st[2]))
     [] st[1] = "dup"   -> Append(dstk, top)
+    [] st[1] = "swap"  -> Append(Append(SubSeq(dstk, 1, n - 2), top), dstk[n - 1])
     [] st[1] = "extend" ->
          LET tg == SetOf(Targets(st[2])) IN
          SetTop(dstk, [top EXCEPT !.c = [x \in DOMAIN top.c \cup tg |->
@@ -211,6 +215,7 @@ BApply(bstk, st) ==
   LET n == Len(bstk) IN
   CASE st[1] = "table" -> Append(bstk, <<"table", st[2]>>)
     [] st[1] = "dup"   -> Append(bstk, bstk[n])
+    [] st[1] = "swap"  -> Append(Append(SubSeq(bstk, 1, n - 2), bstk[n]), bstk[n - 1])
     [] st[1] \in {"join", "joinc", "concat"} -> Append(SubSeq(bstk, 1, n - 2), Build2(bstk[n - 1], bstk[n], st))
     [] OTHER -> SetTop(bstk, Build1(bstk[n], st))
 \* does the BUILDER accept the step?  The code validates a step against the node it finally lands on.
@@ -368,8 +373,20 @@ Extend2Steps(cols) ==
   LET N == KindCols(cols, "n")
       E == {<<"b", "+", C(c), K(1)>> : c \in N}
   IN {<<"extend", <<<<p[1], e1>>, <<p[2], e2>>>>>> : p \in Samp(3, Pairs({"x", "y", "z"})), e1 \in Samp(2, E), e2 \in Samp(2, E)}
+\* Level 0: a micro alphabet for deep exhaustive exploration of fork / merge / re-join shapes (C04):
+\* a shared prefix, two branches that each get their own extends, combined again
+MicroSteps(f, stk) ==
+  LET n == Len(stk) cols == stk[n].cols N == KindCols(cols, "n") IN
+  CASE f = "extend"  -> {<<"extend", <<<<"z", <<"b", "+", C(c), K(1)>>>>>>>> : c \in {"o"} \cap N}
+                        \cup {<<"extend", <<<<"x", <<"b", "+", C(c), K(1)>>>>>>>> : c \in {"x"} \cap N}
+    [] f = "wextend" -> {<<"wextend", <<<<"w", "sum", c, 0>>>>, <<"o">>, <<>>, <<>>>> : c \in {"y"} \cap N}
+                        \cup {<<"wextend", <<<<"w", "_size", "", 0>>>>, <<"o">>, <<>>, <<>>>>}
+    [] f = "stack"   -> IF n < 2 THEN {<<"dup">>} ELSE {<<"swap">>}
+    [] f = "binary"  -> IF n >= 2 THEN {<<"concat", "">>, <<"join", "INNER", <<<<"o", "o">>>>>>} ELSE {}
+    [] OTHER -> {}
 FocusAll == {"extend", "wextend", "project", "select_rows", "cols", "order", "stack", "binary"}
 FamSteps(f, stk) ==
+  IF Level = 0 THEN MicroSteps(f, stk) ELSE
   LET n == Len(stk) cols == stk[n].cols IN
   CASE f = "extend"      -> ExtendSteps(cols)
     [] f = "extend2"     -> Extend2Steps(cols)
@@ -485,7 +502,9 @@ Spec == Init /\ [][Next]_vars
 Case == [inp |-> inp, prog |-> prog, hist |-> hist, alt |-> ahist, kinds |-> Kind,
          used |-> IF Len(dstack) = 0 THEN {} ELSE UsedOf(Top(dstack)),
          dag |-> IF Len(bstack) = 0 THEN <<>> ELSE DagShape(Top(bstack))]
-Emit == (phase = "prog" /\ Len(prog) = MaxSteps /\ (EmitOneIn = 1 \/ RandomElement(1..EmitOneIn) = 1))
+EmitWanted ==
+  EmitSel = "all" \/ (Len(stack) = 1 /\ \E i \in 1..Len(prog) : prog[i][1] = "dup")
+Emit == (phase = "prog" /\ Len(prog) = MaxSteps /\ EmitWanted /\ (EmitOneIn = 1 \/ RandomElement(1..EmitOneIn) = 1))
           => PrintT("CASE " \o ToJson(Case))
 
 (***************************************************************************)
